@@ -169,6 +169,14 @@ func history(h *vh.H, ci int, r vh.R, full bool) {
 	used := map[types.TicketID]bool{} // identifiers already submitted in the current epoch
 	var trace []string
 	lastEpoch := st.tau / E
+	// every second history continues from the slices the node itself holds, as a running node does: after an accepted block the
+	// posterior accumulator / sealer tickets as returned (with whatever spare capacity they have), after a rejected block the very
+	// slices that were handed in. Every second block of such a history the accumulator is handed in with spare capacity (the same
+	// value). A transition that writes through its prior state shows up at the next block. (Chosen from ci and b: no PRNG draws.)
+	carry := ci%2 == 1
+	var implGA types.TicketsAccumulator
+	var implGS []types.TicketBody
+	haveImpl := false
 	for b := 0; b < blocks; b++ {
 		gap := 1
 		switch r.IntN(14) {
@@ -348,6 +356,17 @@ func history(h *vh.H, ci int, r vh.R, full bool) {
 		for _, c := range ext {
 			tix = append(tix, c.env)
 		}
+		gaIn := append(types.TicketsAccumulator{}, st.ga...)
+		gsIn := append([]types.TicketBody(nil), st.gsTickets...)
+		if carry && haveImpl {
+			gaIn, gsIn = implGA, implGS
+			h.Inc("blocks_continuing_from_the_node's_own_slices")
+		}
+		if carry && b%2 == 0 {
+			p := make(types.TicketsAccumulator, len(gaIn), len(gaIn)+K+4)
+			copy(p, gaIn)
+			gaIn = p
+		}
 		pn, msg, stck := vh.Guard(func() {
 			blockchain.ClearVerifierCache()
 			blockchain.ResetInstance()
@@ -359,8 +378,8 @@ func history(h *vh.H, ci int, r vh.R, full bool) {
 			ps.SetKappa(vdata(st.kappa))
 			ps.SetLambda(vdata(st.la))
 			ps.SetGammaK(vdata(st.gk))
-			ps.SetGammaA(append(types.TicketsAccumulator{}, st.ga...))
-			ps.SetGammaS(types.TicketsOrKeys{Tickets: append([]types.TicketBody(nil), st.gsTickets...), Keys: append([]types.BandersnatchPublic(nil), st.gsKeys...)})
+			ps.SetGammaA(gaIn)
+			ps.SetGammaS(types.TicketsOrKeys{Tickets: gsIn, Keys: append([]types.BandersnatchPublic(nil), st.gsKeys...)})
 			cs.GetPosteriorStates().SetTau(types.TimeSlot(tauP))
 			cs.AddBlock(types.Block{Header: types.Header{Slot: types.TimeSlot(tauP), EntropySource: hv}, Extrinsic: types.Extrinsic{Tickets: tix}})
 			errCode = safrole.OuterUsedSafrole()
@@ -371,7 +390,7 @@ func history(h *vh.H, ci int, r vh.R, full bool) {
 			trace = trace[1:]
 		}
 		d := map[string]any{"block": b, "tau": st.tau, "tau_prime": tauP, "epoch_change": eP > e, "tickets": len(ext), "mutation": mutation, "model_rejects": reject,
-			"accumulator_before": len(st.ga), "recent": fmt.Sprint(trace), "validators": V}
+			"accumulator_before": len(st.ga), "continues_from_node_slices": carry && haveImpl, "recent": fmt.Sprint(trace), "validators": V}
 		if pn {
 			d["panic"], d["stack"] = msg, stck
 			h.Viol("hist", ci, "", "safrole transition panicked", d)
@@ -391,6 +410,10 @@ func history(h *vh.H, ci int, r vh.R, full bool) {
 		if reject != "" {
 			h.Inc("blocks_rejected")
 			h.Inc("rejected: " + reject)
+			if carry {
+				implGA, implGS, haveImpl = gaIn, gsIn, true
+				h.Inc("rejected_blocks_whose_prior_slices_are_used_again")
+			}
 			continue // history goes on from the same prior state
 		}
 		h.Inc("blocks_accepted")
@@ -454,6 +477,9 @@ func history(h *vh.H, ci int, r vh.R, full bool) {
 		}
 		lastEpoch = eP
 		st = want
+		if carry {
+			implGA, implGS, haveImpl = post.Gamma.GammaA, post.Gamma.GammaS.Tickets, true
+		}
 	}
 	if full {
 		h.Inc("histories_full_params")
